@@ -2882,6 +2882,7 @@ static TSQueryError ts_query__parse_pattern(
       length
     );
     if (!field_id) {
+      capture_quantifiers_delete(&field_capture_quantifiers);
       stream->input = field_name;
       return TSQueryErrorField;
     }
